@@ -115,8 +115,9 @@ fn exec_inner(c: &Case, out: &mut Outcome) {
         // painting calls: effective fill colour / stroke colour / line width at every path-painting
         // operator of the content read back, against the graphics-state model of the program
         let want = crate::paint::expected(&c.program);
+        let want_geom = crate::paint::expected_geom(&c.program);
         for (i, (w, p)) in want.iter().zip(baseline.pages.iter()).enumerate() {
-            match crate::paint::interpret(&p.content) {
+            match crate::paint::interpret_full(&p.content) {
                 Err(e) => {
                     out.violate("authored-vs-readback:content-does-not-tokenize", format!("page {}: {}", i, e));
                     return;
@@ -126,7 +127,12 @@ fn exec_inner(c: &Case, out: &mut Outcome) {
                         out.violate("authored-vs-readback:paint-count-differs", format!("page {}: the program paints {} paths, the content read back paints {}", i, w.len(), got.len()));
                         return;
                     }
-                    for (k, (a, b)) in w.iter().zip(got.iter()).enumerate() {
+                    for (k, (a, (b, geom))) in w.iter().zip(got.iter()).enumerate() {
+                        if let Some(Err(e)) = want_geom.get(i).and_then(|g| g.get(k)).map(|g| g.check(geom)) {
+                            out.violate("authored-vs-readback:path-operands-differ", format!("page {} painting call #{}: {}", i, k, e));
+                            return;
+                        }
+                        out.bump("probe.path_geometries_checked", 1);
                         if !a.agrees(b) {
                             out.violate(
                                 "authored-vs-readback:paint-state-differs",
